@@ -146,3 +146,11 @@ Print Assumptions C07_run_config_total.
 Theorem C07_compile_and_run_total : forall base text, np_compile_and_run base text <> Panic.
 Proof. exact np_compile_and_run_total. Qed.
 Print Assumptions C07_compile_and_run_total.
+
+(* mergeActions: whenever the defaults of the phase contain a disruptive action (ParseDefaultActions
+   guarantees it, proved: np_parse_default_disr) no merged action has a nil F; compile_config_total
+   above goes through SecDefaultAction, ParseDefaultActions, the built-in phase-2 default and this merge *)
+Theorem C07_merge_no_nil_action : forall origin d,
+  existsb ra_disr d = true -> Forall (fun o => o <> None) (np_merge origin d).
+Proof. exact np_merge_no_nil. Qed.
+Print Assumptions C07_merge_no_nil_action.
